@@ -3,7 +3,7 @@ From Coq Require Import ZArith Bool List String.
 From CP Require Import Tls.Version.
 From CPGen Require Import Tables.
 Import ListNotations.
-Open Scope string_scope.
+Local Open Scope string_scope.
 
 Definition bit (b : bool) : string := if b then "1" else "0".
 Definition pair_bits (a b : Z) : string :=
